@@ -864,3 +864,94 @@ func specSameLevels(a, b []int32) bool {
 	}
 	return true
 }
+
+// nested optional group with an optional leaf and a repeated leaf: definition
+// and repetition levels above 1 through the specification reader
+type verifInnerG struct {
+	X  int32   `parquet:"x,optional"`
+	Ys []int32 `parquet:"ys"`
+}
+
+type verifRecG2 struct {
+	ID    int64        `parquet:"id"`
+	Inner *verifInnerG `parquet:"inner,optional"`
+}
+
+func VerifH_C02_specReaderNested() {
+	vUnwind(1 << 16)
+	// the CRC field is checked against the real CRC-32 by VerifH_C02_specReaderAgrees;
+	// here it is an unknown function of the page bytes, so that several columns
+	// can be symbolic at once
+	vAbstractCRCFixedWidth()
+	n := vChoose("rows", 1, 2+vTier())
+	rows := make([]verifRecG2, n)
+	for i := range rows {
+		rows[i].ID = int64(10 + i)
+		switch vChoose("inner", 0, 3) {
+		case 1:
+			rows[i].Inner = &verifInnerG{}
+		case 2:
+			rows[i].Inner = &verifInnerG{X: int32(vI8("x")), Ys: []int32{int32(vI8("y0"))}}
+		case 3:
+			rows[i].Inner = &verifInnerG{X: 5, Ys: []int32{1, int32(vI8("y1")), 3}}
+		}
+	}
+	var opts []WriterOption
+	if vChoose("pageVersion", 1, 2) == 1 {
+		opts = append(opts, DataPageVersion(1))
+	}
+	if vChoose("onePagePerRow", 0, 1) == 1 {
+		opts = append(opts, PageBufferSize(1))
+	}
+	buf := new(bytes.Buffer)
+	w := NewGenericWriter[verifRecG2](buf, opts...)
+	for i := range rows {
+		if _, err := w.Write(rows[i : i+1]); err != nil {
+			vAssert(false, "rows are accepted")
+			return
+		}
+	}
+	if err := w.Close(); err != nil {
+		vAssert(false, "file closes")
+		return
+	}
+	cols, ok := specDecodeFile(buf.Bytes(), int64(n))
+	if !ok {
+		return
+	}
+	vAssert(len(cols) == 3, "three leaf columns")
+	if len(cols) != 3 {
+		return
+	}
+	var ids, xs, ys []int64
+	var xDef, yRep, yDef []int32
+	for i := range rows {
+		ids = append(ids, rows[i].ID)
+		in := rows[i].Inner
+		switch {
+		case in == nil:
+			xDef = append(xDef, 0)
+			yRep, yDef = append(yRep, 0), append(yDef, 0)
+		default:
+			if in.X != 0 {
+				xDef, xs = append(xDef, 2), append(xs, int64(in.X))
+			} else {
+				xDef = append(xDef, 1)
+			}
+			if len(in.Ys) == 0 {
+				yRep, yDef = append(yRep, 0), append(yDef, 1)
+			}
+			for j, y := range in.Ys {
+				r := int32(1)
+				if j == 0 {
+					r = 0
+				}
+				yRep, yDef, ys = append(yRep, r), append(yDef, 2), append(ys, int64(y))
+			}
+		}
+	}
+	vAssert(specSameInts(cols[0].ints, ids), "required column holds the written values")
+	vAssert(specSameInts(cols[1].ints, xs) && specSameLevels(cols[1].def, xDef), "optional leaf in an optional group: values and two-level null pattern")
+	vAssert(specSameInts(cols[2].ints, ys) && specSameLevels(cols[2].rep, yRep) && specSameLevels(cols[2].def, yDef), "repeated leaf in an optional group: values, repetition and definition levels")
+	vCover("nested")
+}
